@@ -378,17 +378,18 @@ theorem last_axis_refines (op : RedOp) (a reuse : Dense) (data : List Val) (pre 
   have := reduceVals_last op a reuse data d (pre.map Int.ofNat) hcol (by simpa using hsh) (by simpa using hpre) hd
   simpa using this
 
-/-! ## 4. The middle-axis kernel and finding F40 -/
+/-! ## 4. The middle-axis kernel (finding F40, repaired) -/
 
-/-- M's kernel selection for a middle axis of a row-major operand -/
+/-- M's kernel selection for a middle axis of a row-major operand: the default kernel, whose walk
+    jumps by `(dimSize-1)*stride` at the end of every block -/
 theorem reduceVals_default (op : RedOp) (a reuse : Dense) (data : List Val) (axis : Int)
     (d0 d os stride expected : Nat)
     (hcol : a.ap.o.col = false) (hax0 : axis ≠ 0) (haxl : axis ≠ (a.dims : Int) - 1)
     (h1 : getI? a.shape 0 = some (d0 : Int)) (h2 : getI? a.shape axis = some (d : Int))
     (h3 : getI? a.strides 0 = some (os : Int)) (h4 : getI? a.strides axis = some (stride : Int))
     (h5 : getI? reuse.strides 0 = some (expected : Int))
-    (hok : defaultOk data.length d0 d os stride expected stride = true) :
-    reduceVals op a reuse data axis = .ok (reduceDefaultK op.defF data d0 d os stride expected stride) := by
+    (hok : defaultOk data.length d0 d os stride expected ((d - 1) * stride) = true) :
+    reduceVals op a reuse data axis = .ok (reduceDefaultK op.defF data d0 d os stride expected ((d - 1) * stride)) := by
   have e0 : (axis == 0) = false := by simp [hax0]
   have el : (axis == (a.dims : Int) - 1) = false := by simp [haxl]
   unfold reduceVals
@@ -396,104 +397,57 @@ theorem reduceVals_default (op : RedOp) (a reuse : Dense) (data : List Val) (axi
     Bool.not_false, Bool.and_true, idx, h1, h2, h3, h4, h5, ok_bind, natOf_cast, hok, Bool.not_true]
   rfl
 
-/-- the region of finding F40 for an operand of shape `d0 :: pre ++ d :: rest` reduced along the axis of
-    extent `d`: more than one block of `∏ rest` cells per outer slab, and an extent other than 2 -/
-def Excl40 (pre : List Nat) (d : Nat) : Prop := prodN pre > 1 ∧ d ≠ 2
+theorem jump_lands (d s : Nat) (hd : 1 ≤ d) : s + (d - 1) * s = d * s := by
+  obtain ⟨e, rfl⟩ : ∃ e, d = e + 1 := ⟨d - 1, by omega⟩
+  rw [Nat.add_sub_cancel, Nat.add_mul, Nat.one_mul, Nat.add_comm]
 
-instance (pre : List Nat) (d : Nat) : Decidable (Excl40 pre d) := by unfold Excl40; infer_instance
-
-def reduceDefault_spec_full : Prop :=
-  ∀ (α : Type) [Inhabited α] (f : α → α → α) (d0 : Nat) (pre : List Nat) (d : Nat) (rest : List Nat) (data : List α),
-    1 ≤ prodN rest → data.length = prodN (d0 :: (pre ++ d :: rest)) →
-    reduceDefaultK f data d0 d (prodN (pre ++ d :: rest)) (prodN rest) (prodN pre * prodN rest) (prodN rest) =
-      specAxis (fold1 f) (d0 :: (pre ++ d :: rest)) (pre.length + 1) data
-
-theorem reduceDefault_spec_partial {α : Type} [Inhabited α] (f : α → α → α) (d0 : Nat) (pre : List Nat) (d : Nat)
-    (rest : List Nat) (data : List α) (hs : 1 ≤ prodN rest) (hlen : data.length = prodN (d0 :: (pre ++ d :: rest)))
-    (hx : ¬ Excl40 pre d) :
-    reduceDefaultK f data d0 d (prodN (pre ++ d :: rest)) (prodN rest) (prodN pre * prodN rest) (prodN rest) =
-      specAxis (fold1 f) (d0 :: (pre ++ d :: rest)) (pre.length + 1) data := by
-  apply reduceDefaultK_spec' f d0 pre d rest (prodN rest) data hs _ hlen
-  intro p hp
-  simp only [Excl40, not_and, Decidable.not_not] at hx
-  by_cases h1 : prodN pre > 1
-  · rw [hx h1, Nat.two_mul]
-  · have : p = 0 := by omega
-    subst this; simp
-
-theorem reduceDefault_spec_full_fails : ¬ reduceDefault_spec_full := by
-  intro h
-  have := h Nat (· + ·) 2 [2] 3 [4] (List.range 48) (by decide) (by decide)
-  revert this
-  decide
-
-theorem reduceDefault_fixed_spec {α : Type} [Inhabited α] (f : α → α → α) (d0 : Nat) (pre : List Nat) (d : Nat)
+/-- **`reduceDefault`** (an axis that is neither the first nor the last) on the row-major listing of an
+    array of shape `d0 :: pre ++ d :: rest` = S's reduction of the axis of extent `d`, for every rank
+    and every extent. (Before the repair of finding F40 the walk jumped by `stride`; that kernel
+    satisfies the statement only when `∏ pre = 1` or `d = 2`, see the example below.) -/
+theorem reduceDefault_spec {α : Type} [Inhabited α] (f : α → α → α) (d0 : Nat) (pre : List Nat) (d : Nat)
     (rest : List Nat) (data : List α) (hs : 1 ≤ prodN rest) (hd : 1 ≤ d) (hlen : data.length = prodN (d0 :: (pre ++ d :: rest))) :
     reduceDefaultK f data d0 d (prodN (pre ++ d :: rest)) (prodN rest) (prodN pre * prodN rest) ((d - 1) * prodN rest) =
       specAxis (fold1 f) (d0 :: (pre ++ d :: rest)) (pre.length + 1) data := by
   apply reduceDefaultK_spec' f d0 pre d rest _ data hs _ hlen
   intro p _
-  obtain ⟨e, rfl⟩ : ∃ e, d = e + 1 := ⟨d - 1, by omega⟩
-  congr 1
-  rw [Nat.add_sub_cancel, Nat.add_mul, Nat.one_mul, Nat.add_comm]
+  rw [jump_lands d (prodN rest) hd]
 
-/-- **M = S, middle axis — partial (finding F40).** On a row-major operand of shape
-    `d0 :: pre ++ d :: rest` whose metadata look-ups give the row-major values, the step along the axis of
-    extent `d` writes S's reduction of that axis *outside the region* `Excl40 pre d`; inside it the
-    statement is false (`reduceDefault_spec_full_fails`). The in-bounds condition `defaultOk` is kept
-    as a hypothesis (it holds on the witness shapes, see the examples below). -/
-theorem middle_axis_refines_partial (op : RedOp) (a reuse : Dense) (data : List Val)
+/-- the kernel never reads outside its slab (no index panic) on such an operand -/
+theorem reduceDefault_in_bounds (d0 : Nat) (pre : List Nat) (d : Nat) (rest : List Nat) (n : Nat)
+    (hs : 1 ≤ prodN rest) (hd : 1 ≤ d) (hlen : n = prodN (d0 :: (pre ++ d :: rest))) :
+    defaultOk n d0 d (prodN (pre ++ d :: rest)) (prodN rest) (prodN pre * prodN rest) ((d - 1) * prodN rest) = true := by
+  have hp : prodN (pre ++ d :: rest) = prodN pre * (d * prodN rest) := by rw [prodN_append]; rfl
+  rw [hp]
+  apply defaultOk_of_jump n d0 (prodN pre) d (prodN rest) _ hs hd (jump_lands d (prodN rest) hd)
+  rw [hlen, prodN, hp]
+  exact Nat.le_refl _
+
+/-- **M = S, middle axis.** On a row-major operand of shape `d0 :: pre ++ d :: rest` whose metadata
+    look-ups give the row-major values, the step along the axis of extent `d` writes S's reduction of that
+    axis (no bounds panic), for every rank. -/
+theorem middle_axis_refines (op : RedOp) (a reuse : Dense) (data : List Val)
     (d0 : Nat) (pre : List Nat) (d : Nat) (rest : List Nat)
     (hcol : a.ap.o.col = false) (hdims : a.dims = pre.length + 2 + rest.length) (hrest : rest ≠ [])
     (h1 : getI? a.shape 0 = some (d0 : Int)) (h2 : getI? a.shape ((pre.length + 1 : Nat) : Int) = some (d : Int))
     (h3 : getI? a.strides 0 = some ((prodN (pre ++ d :: rest) : Nat) : Int))
     (h4 : getI? a.strides ((pre.length + 1 : Nat) : Int) = some ((prodN rest : Nat) : Int))
     (h5 : getI? reuse.strides 0 = some ((prodN pre * prodN rest : Nat) : Int))
-    (hs : 1 ≤ prodN rest) (hdata : data.length = prodN (d0 :: (pre ++ d :: rest)))
-    (hok : defaultOk data.length d0 d (prodN (pre ++ d :: rest)) (prodN rest) (prodN pre * prodN rest) (prodN rest) = true)
-    (hx : ¬ Excl40 pre d) :
+    (hs : 1 ≤ prodN rest) (hd : 1 ≤ d) (hdata : data.length = prodN (d0 :: (pre ++ d :: rest))) :
     reduceVals op a reuse data ((pre.length + 1 : Nat) : Int) =
       .ok (specAxis (fold1 op.defF) (d0 :: (pre ++ d :: rest)) (pre.length + 1) data) := by
   have hrl : 0 < rest.length := List.length_pos_iff.mpr hrest
-  rw [← reduceDefault_spec_partial op.defF d0 pre d rest data hs hdata hx]
-  exact reduceVals_default op a reuse data _ d0 d _ _ _ hcol (by omega) (by rw [hdims]; omega) h1 h2 h3 h4 h5 hok
+  rw [← reduceDefault_spec op.defF d0 pre d rest data hs hd hdata]
+  exact reduceVals_default op a reuse data _ d0 d _ _ _ hcol (by omega) (by rw [hdims]; omega) h1 h2 h3 h4 h5
+    (reduceDefault_in_bounds d0 pre d rest _ hs hd hdata)
 
-/-- the driver's decidable predicate (`Ext/Reduce.lean`) is this region -/
-
-theorem prod_map_ofNat : ∀ (l : List Nat), prod (l.map Int.ofNat) = (prodN l : Int)
-  | [] => rfl
-  | x :: xs => by simp [prod, prodN, prod_map_ofNat xs]
-
-theorem Excl_defaultWalk_iff (d0 : Nat) (pre : List Nat) (d : Nat) (rest : List Nat) (hr : rest ≠ []) :
-    Excl_defaultWalk ((d0 :: (pre ++ d :: rest)).map Int.ofNat) ((pre.length + 1 : Nat) : Int) = true ↔ Excl40 pre d := by
-  have hrl : 0 < rest.length := List.length_pos_iff.mpr hr
-  have hpos : (0 : Int) < ((pre.length + 1 : Nat) : Int) := by omega
-  have hnn : ¬ (((pre.length + 1 : Nat) : Int) < 0) := by omega
-  have htake : (((d0 :: (pre ++ d :: rest)).map Int.ofNat).take (pre.length + 1)).drop 1 = pre.map Int.ofNat := by
-    simp
-  have hget : getI? ((d0 :: (pre ++ d :: rest)).map Int.ofNat) ((pre.length + 1 : Nat) : Int) = some (d : Int) := by
-    simp [getI?]; omega
-  unfold Excl_defaultWalk Excl40
-  rw [Int.toNat_natCast, htake, hget, prod_map_ofNat]
-  simp only [List.length_map, List.length_cons, List.length_append, Bool.and_eq_true, decide_eq_true_eq, bne_iff_ne, ne_eq,
-    Option.some.injEq]
-  constructor
-  · rintro ⟨⟨⟨_, _⟩, h3⟩, h4⟩
-    exact ⟨by omega, by omega⟩
-  · rintro ⟨h3, h4⟩
-    exact ⟨⟨⟨by omega, by omega⟩, by omega⟩, by omega⟩
-
-/-- the witness of F40 as the driver sees it: `Sum` over axis 2 of a (2,2,3,4) tensor is in the region,
-    a rank-3 middle axis and a middle axis of extent 2 are not -/
-example : Excl_defaultWalk [2, 2, 3, 4] 2 = true ∧ Excl_defaultWalk [2, 3, 4] 1 = false ∧
-    Excl_defaultWalk [2, 3, 2, 4] 2 = false ∧ Excl_defaultWalk [2, 1, 3, 4] 2 = false ∧
-    Excl_defaultWalk [2, 2, 1, 4] 2 = true := by decide
-
-/-- the concrete wrong values of the witness: rows 36 39 42 45 where 48 51 54 57 is right -/
-example : ((reduceDefaultK (· + ·) (List.range 48) 2 3 24 4 8 4).drop 4).take 4 = [36, 39, 42, 45] := by decide
+/-- the former witness of F40, `Sum` over axis 2 of a (2,2,3,4) range tensor: the repaired walk gives
+    S's values 48 51 54 57 in row 2; the walk that jumped by `stride` gave 36 39 42 45 -/
+example : reduceDefaultK (· + ·) (List.range 48) 2 3 24 4 8 8 = specAxis (fold1 (· + ·)) [2, 2, 3, 4] 2 (List.range 48) := by decide
 example : ((specAxis (fold1 (· + ·)) [2, 2, 3, 4] 2 (List.range 48)).drop 4).take 4 = [48, 51, 54, 57] := by decide
-/-- extent 1 in the region: the walk leaves the slab (Go: index out of range panic) -/
-example : defaultOk 16 2 1 8 4 8 4 = false ∧ defaultOk 48 2 3 24 4 8 4 = true := by decide
+example : ((reduceDefaultK (· + ·) (List.range 48) 2 3 24 4 8 4).drop 4).take 4 = [36, 39, 42, 45] := by decide
+/-- extent 1: the repaired walk stays in bounds (the old one left the slab: Go index panic) -/
+example : defaultOk 16 2 1 8 4 8 0 = true ∧ defaultOk 16 2 1 8 4 8 4 = false := by decide
 
 /-! ## 5. Arg-reductions -/
 
